@@ -361,14 +361,25 @@ def _run_history(steps) -> None:
     first.http_conn.conn_impl.opener = Recorder()
     callers = [first]
     models: List[List[Any]] = [[]]
+    parents: List[Optional[int]] = [None]
+    tainted: set = set()      # callers whose own connection got an adapter afterwards (their own requests are not specified here)
     log = []
     for si, (op, tgt, arg) in enumerate(steps):
         tgt = tgt % len(callers)
         c, m = callers[tgt], models[tgt]
         what = f"history {log + [(op, tgt, arg)]}"
+        n_before = len(callers)
         try:
-            if op == "call":
-                _call_and_check(c, m, address, arg % 3, what)
+            if op == "addad":
+                # an adapter added to a connection nothing was derived from: every OTHER connection must stay as it was
+                if tgt in parents:
+                    _call_and_check(c, m, address, arg % 3, what) if tgt not in tainted else None
+                else:
+                    c.http_conn.add_adapter(H.RequestAdapterAddPathPrefix("/added") if arg % 2 else _mk_marker(f"added{si}"))
+                    tainted.add(tgt)
+            elif op == "call":
+                if tgt not in tainted:
+                    _call_and_check(c, m, address, arg % 3, what)
             elif op == "clone1":
                 ad = _mk_marker(f"c{si}")
                 callers.append(c.clone(ad))
@@ -387,6 +398,10 @@ def _run_history(steps) -> None:
                 conn = H.HttpConn(c.http_conn, adapters=[_mk_marker(f"w{si}")])
                 callers.append(cls(conn))
                 models.append([("mark", f"w{si}")] + m)
+            elif op == "wrap0":
+                conn = H.HttpConn(c.http_conn, adapters=[]) if arg % 2 else H.HttpConn(c.http_conn)
+                callers.append(cls(conn))
+                models.append(list(m))
             else:
                 raise ValueError(op)
         except Violation:
@@ -394,15 +409,19 @@ def _run_history(steps) -> None:
         except Exception as e:  # noqa
             raise Violation(f"derive-raises :: {what}: {op} raises {type(e).__name__}: {e}")
         log.append((op, tgt, arg))
+        for k in range(n_before, len(callers)):
+            parents.append(tgt)
+            if tgt in tainted:
+                tainted.add(k)
         # non-interference: every caller created so far still sends exactly its own requests
         for k, (cc, mm) in enumerate(zip(callers, models)):
-            if sum(1 for a in mm if a[0] == "auth") > 1:
+            if sum(1 for a in mm if a[0] == "auth") > 1 or k in tainted:
                 continue
             for which in (0, 1, 2):
                 _call_and_check(cc, mm, address, which, f"{what} -> afterwards caller {k}")
 
 
-OPS = ["call", "clone1", "cloneL", "clone0", "cloneB", "wrapconn"]
+OPS = ["call", "clone1", "cloneL", "clone0", "cloneB", "wrapconn", "wrap0", "addad"]
 
 
 def h_history(n: int, o0: int, t0: int, r0: int, o1: int, t1: int, r1: int, o2: int, t2: int, r2: int, shard=None) -> None:
